@@ -62,7 +62,24 @@ impl X<'_> {
             return r.to_string();
         }
         let i = self.g.rng.gen_range(0..cs.len());
-        match self.g.rng.gen_range(0..5) {
+        match self.g.rng.gen_range(0..6) {
+            5 => {
+                // a look-alike of the same Unicode class: digits of other scripts, full-width forms, odd spaces and dashes
+                cs[i] = match cs[i] {
+                    d @ '0'..='9' => {
+                        let k = d as u32 - '0' as u32;
+                        char::from_u32(*self.g.pick(&[0xFF10u32, 0x0660, 0x0966, 0x1D7CE]) + k).unwrap_or(d)
+                    }
+                    c @ ('a'..='z' | 'A'..='Z') => char::from_u32(0xFF00 + c as u32 - 0x20).unwrap_or(c),
+                    ' ' => *self.g.pick(&['\u{a0}', '\u{2028}', '\u{3000}', '\u{200b}']),
+                    '-' => *self.g.pick(&['\u{2212}', '\u{2010}', '\u{ff0d}']),
+                    '+' => '\u{ff0b}',
+                    ':' => '\u{ff1a}',
+                    '.' => *self.g.pick(&['\u{ff0e}', '\u{3002}']),
+                    '/' => '\u{2215}',
+                    c => c,
+                };
+            }
             0 => {
                 cs.remove(i);
             }
